@@ -73,6 +73,20 @@ CSS_VALUES = ["color: red", "background: url(javascript:alert(1))", "background:
               "text-decoration: underline; display: none", "background: url&#40;x&#41;", "background: url&lpar;x&rpar;"]
 
 URI_TARGETS = None
+# SVG presentation attributes whose value may be a url() reference (pinned, as the URI-valued set below)
+PINNED_SVG_REF_ATTRS = frozenset((None, n) for n in ("clip-path", "color-profile", "cursor", "fill", "filter", "marker", "marker-end", "marker-mid",
+                                                     "marker-start", "mask", "stroke"))
+_URLFN = None
+
+
+def url_references(value):
+    """Targets of the closed url(...) references in an SVG presentation attribute value (function name in any ASCII case,
+    optional quotes)."""
+    global _URLFN
+    if _URLFN is None:
+        import re
+        _URLFN = re.compile(r"url\s*\(\s*([\"']?)(.*?)\1\s*\)", re.I | re.S)
+    return [m.group(2) for m in _URLFN.finditer(value)]
 # Which attributes are URI-valued is a fact about HTML/SVG, not a choice of the code under test: pinned here (the 13 the
 # pinned tree declares), so that dropping one from the library's own table is seen.  A caller-supplied attr_val_is_uri is
 # the caller's declaration and replaces it.
@@ -120,8 +134,28 @@ def multi_uri_input(rng):
     return "<%s %s>x" % (el, " ".join(parts)), "multi"
 
 
+def svg_ref_input(rng):
+    """SVG presentation attributes holding one to four url() references (remote with any scheme, local #id), in the
+    spellings CSS allows."""
+    def ref():
+        r = rng.random()
+        t = "#a" if r < 0.25 else gen_url(rng).replace('"', "").replace(")", "").replace("(", "")
+        q = rng.choice(["", "", "'", " "])
+        fn = rng.choice(["url", "url", "url", "url ", "URL", "Url"])
+        return "%s(%s%s%s)" % (fn, q if q != " " else " ", t, q if q != " " else " ")
+    parts = []
+    for nm in rng.sample(["fill", "stroke", "clip-path", "marker-start", "marker-mid", "marker-end", "filter", "mask", "cursor"], rng.randint(1, 3)):
+        v = " ".join([ref() for _ in range(rng.randint(1, 4))] + rng.sample(["red", "none", "x"], rng.randint(0, 1)))
+        parts.append('%s="%s"' % (nm, v.replace('"', "&quot;")))
+    el = rng.choice(["rect", "path", "g", "circle", "use", "text"])
+    return "<svg><%s %s>x</%s></svg>" % (el, " ".join(parts), el), "svg-ref"
+
+
 def directed_input(rng):
-    if rng.random() < 0.3:
+    r0 = rng.random()
+    if r0 < 0.12:
+        return svg_ref_input(rng)
+    if r0 < 0.4:
         return multi_uri_input(rng)
     tpl, attr = rng.choice(uri_targets())
     url = gen_url(rng).replace('"', "&quot;")
@@ -239,6 +273,15 @@ def judge(ctx, case, tokens, kw, label):
                                 ctx.violation("forbidden-data-content-type-kept", case,
                                               "%s: %s=%r is a data: URL of type %r" % (label, k[1], v[:80], ess))
                                 return None
+                if k in PINNED_SVG_REF_ATTRS and "svg_attr_val_allows_ref" not in kw:
+                    # a url() reference is a URL as well: none may keep a scheme outside the allowed protocols
+                    for target in url_references(v):
+                        ctx.count("svg_url_references_judged")
+                        sch = urlcss.url_scheme(target)
+                        if sch is not None and sch not in L["allowed_protocols"]:
+                            ctx.violation("svg-reference-keeps-forbidden-scheme:" + sch[:15], case,
+                                          "%s: %s=%r keeps url(%r)" % (label, k[1], v[:100], target[:60]))
+                            return None
                 if k == (None, "style"):
                     interesting = True
                     ctx.count("style_values_judged")
